@@ -13,10 +13,13 @@ import (
 	"sync"
 
 	"github.com/brimdata/super/compiler/ast/dag"
+	"github.com/brimdata/super/compiler/data"
+	"github.com/brimdata/super/pkg/storage"
 	"github.com/brimdata/super/zbuf"
 	"github.com/brimdata/super/ztest"
 
 	"verif/core"
+	"verif/lakeh"
 )
 
 // The repository's own programs: compiler/parser/valid.zed and every ztest with
@@ -286,8 +289,54 @@ func (h *harness) evalCorpus(p corpusProg, in string, batch int) {
 		return
 	}
 	if ok, why := compare(U.Mode, U.Rows, O.Rows); !ok {
+		if sig := classifyCorpus(U, O); sig != "" {
+			h.mu.Lock()
+			h.taintObserved[strings.TrimPrefix(sig, "taint:")]++
+			h.mu.Unlock()
+			c.Violate(sig, fmt.Sprintf("%s: `%s`: as analyzed %v, optimized %v: %s; optimized plan: %s", p.Name, p.Zed, short(U.Rows), short(O.Rows), why, O.Canon), w)
+			return
+		}
 		c.Violate("corpus:"+p.Name, fmt.Sprintf("%s: `%s`: as analyzed %v, optimized %v: %s; optimized plan: %s", p.Name, p.Zed, short(U.Rows), short(O.Rows), why, O.Canon), w)
 	}
+}
+
+// classifyCorpus recognizes the two known filter defects on a corpus program
+// (there is no spec taint for those): the only difference between the two results
+// is error values that the where operator passes on and the scanner filter drops
+// (pushdown-error), or that `where A | where B` drops and the merged filter passes
+// on (merge-filters-error).
+func classifyCorpus(U, O runResult) string {
+	diff := func(a, b []string) []string { // multiset a - b
+		m := map[string]int{}
+		for _, x := range b {
+			m[x]++
+		}
+		var out []string
+		for _, x := range a {
+			if m[x] > 0 {
+				m[x]--
+			} else {
+				out = append(out, x)
+			}
+		}
+		return out
+	}
+	allErr := func(rows []string) bool {
+		for _, r := range rows {
+			if !strings.HasPrefix(r, "error(") {
+				return false
+			}
+		}
+		return len(rows) > 0
+	}
+	onlyU, onlyO := diff(U.Rows, O.Rows), diff(O.Rows, U.Rows)
+	switch {
+	case len(onlyO) == 0 && allErr(onlyU) && strings.HasPrefix(O.Canon, "reader filter(") && !strings.HasPrefix(U.Canon, "reader filter("):
+		return "taint:pushdown-error"
+	case len(onlyU) == 0 && allErr(onlyO) && strings.Count(O.Canon, " and ") > strings.Count(U.Canon, " and "):
+		return "taint:merge-filters-error"
+	}
+	return ""
 }
 
 func (h *harness) corpus() error {
@@ -364,8 +413,31 @@ func (h *harness) replay() error {
 	if w.Batch > 0 {
 		zbuf.PullerBatchValues = w.Batch
 	}
-	U := runProgram(h.ctx, w.Program, runOpts{NoOptimize: true, SortKey: w.Sk}, w.Input)
-	O := runProgram(h.ctx, w.Program, runOpts{SortKey: w.Sk, Timeout: confirmTimeout}, w.Input)
+	var src *data.Source
+	inputs := []string{w.Input}
+	if w.Kind == "pool" {
+		// rebuild the pool: the program is `from <name> | ...`
+		name := strings.Fields(w.Program)[1]
+		lk, err := lakeh.Create(h.ctx, lakeh.NewMemStore(), 0, nil)
+		if err != nil {
+			return err
+		}
+		id, err := lk.CreatePool(h.ctx, name, "a", strings.TrimPrefix(w.Sk, "a:"), 0, 0)
+		if err != nil {
+			return err
+		}
+		if _, err := lk.LoadZSON(h.ctx, id, "main", w.Input); err != nil {
+			return err
+		}
+		src = data.NewSource(storage.NewRemoteEngine(), lk.Root)
+		inputs = nil
+	}
+	sk := w.Sk
+	if src != nil {
+		sk = ""
+	}
+	U := runProgram(h.ctx, w.Program, runOpts{NoOptimize: true, SortKey: sk, Source: src}, inputs...)
+	O := runProgram(h.ctx, w.Program, runOpts{SortKey: sk, Timeout: confirmTimeout, Source: src}, inputs...)
 	fmt.Printf("program: %s\nsort key: %q  batch: %d  mode: %s\ninput:\n%s", w.Program, w.Sk, w.Batch, w.Mode, w.Input)
 	fmt.Printf("as analyzed  [%s] err=%v\n  %v\noptimized    [%s] err=%v\n  %v\n", U.Canon, U.Err, U.Rows, O.Canon, O.Err, O.Rows)
 	mode := w.Mode
